@@ -301,3 +301,13 @@ let () = register "qrpen" (fun args ->
       Printf.sprintf "%d %d %d %d %d" (iz r1) (iz r2) (iz r3) (iz r4) (iz (penalty_rows rows))
     end
   | _ -> "BAD")
+
+(* qrpens <level> <mode> <content hex> : the penalties of the eight mask candidates (to find contents whose two
+   best masks TIE: there the selection must still be deterministic - first lowest index) *)
+let () = register "qrpens" (fun args ->
+  match args with
+  | [level; mode; content] ->
+    (match qr_render_all (zlist_of_hex content) (z_of_string level) (z_of_string mode) with
+     | Ok ms -> String.concat " " (List.map (fun m -> string_of_int (iz (calc_penalty m))) ms)
+     | Err -> "ERR" | Panic -> "PANIC" | OutOfFuel -> "OUTOFFUEL")
+  | _ -> "BAD")
